@@ -171,7 +171,7 @@ pub fn cases(f: &mut dyn FnMut(Value) -> bool) {
             }
         }
         if t.wins.is_empty() {
-            for op in ["init", "clone"] {
+            for op in ["init", "clone", "clone_from_small", "clone_from_big"] {
                 for k in 0..=cells + 1 {
                     if !f(json!({"scenario": "clone", "op": op, "target": t.to_json(), "k": k})) {
                         return;
@@ -416,6 +416,14 @@ pub fn run(case: &Value) -> Res {
                     if let Ok(n) = made {
                         post_check("init result", n, true)?;
                     }
+                }
+                "clone_from_small" | "clone_from_big" => {
+                    // destination with a different number of cells; Clone panics at the k-th element
+                    let mut dst = if op == "clone_from_small" { tok_array(1, 1) } else { tok_array(w + 1, h + 2) };
+                    tok::set_clone_panic(Some(k));
+                    let _ = catch(|| dst.clone_from(&p));
+                    tok::disarm();
+                    post_check("clone_from destination", dst, true)?;
                 }
                 "clone" => {
                     tok::set_clone_panic(Some(k));
